@@ -1,6 +1,7 @@
 package main
 
 import (
+	"fmt"
 	"reflect"
 	"sort"
 	"strings"
@@ -10,13 +11,44 @@ import (
 	"github.com/openconfig/ygot/verifharness/gen"
 	"github.com/openconfig/ygot/verifharness/model"
 	"github.com/openconfig/ygot/ygot"
+	"google.golang.org/protobuf/encoding/prototext"
+	"google.golang.org/protobuf/proto"
 	"verifsim/simrt"
 )
 
 // treeCase is the shared setup of the properties that run histories against a whole
 // data tree (C10, C12, C13, C03, C04): a corpus package, a seeded initial tree and the
 // map-order configuration.
+// heldMsg is a result of an earlier call that the harness keeps in its hands: it must not
+// change when later calls run (a result that aliases a buffer reused between calls would).
+type heldMsg struct {
+	what string
+	msg  proto.Message
+	text string
+}
+
+func (s *treeState) hold(what string, m proto.Message) {
+	if m == nil || reflect.ValueOf(m).IsNil() {
+		return
+	}
+	s.held = append(s.held, heldMsg{what, m, prototext.Format(m)})
+	if len(s.held) > 6 {
+		s.held = s.held[len(s.held)-6:]
+	}
+}
+
+// heldChanged returns a description of the first held result that no longer reads as it did.
+func (s *treeState) heldChanged() string {
+	for _, h := range s.held {
+		if now := prototext.Format(h.msg); now != h.text {
+			return fmt.Sprintf("%s returned earlier has changed:\n  was: %s\n  now: %s", h.what, clip(h.text, 300), clip(now, 300))
+		}
+	}
+	return ""
+}
+
 type treeState struct {
+	held []heldMsg
 	p    *corpus.Pkg
 	sch  *yang.Entry
 	root ygot.GoStruct
